@@ -295,6 +295,23 @@ PROPS["C13"] = dict(
                          "seq_histories_with_eviction": (200, 20000)}),
 )
 
+PROPS["C20"] = dict(
+    level="exploration",
+    technique="history checker: callers and supplied tasks recorded with one atomic sequence counter at the client boundary; linear-time check with unique task ids; bounded-progress probe for lost wake-ups",
+    rule=("case = short history: 1..4 keys, 2..64 callers with arrival offsets in yields, tasks that succeed / fail / panic after 0..3 yields, on current_thread, multi-thread (2/4/16) runtimes and the repository ThreadPool, "
+          "half of them with seeded spins / yields at the singleflight hook points; checker: task ran at most once, owner flag <-> own task ran, one owner per flight, result names a task of the same key with the matching outcome "
+          "(value / error text / panic notification), no caller joins a flight whose owning call had returned before its call started, no internal-BUG variant, no waiter left pending after the scheduler "
+          "demonstrably ran everything runnable three times; non-trivial = at least one joiner; distinct = (runtime, perturbed, keys, callers / flights / joiners buckets, outcome mix)"),
+    assumptions=["cancellation of a calling future is not exercised", "a wall-clock watchdog firing without scheduler evidence is inconclusive, never a violation",
+                 "yields at hook points are only injected at existing suspension points; elsewhere the hooks spin the worker thread"],
+    jobs=[
+        Job("sflight", engine="sflight", workers=(8, 16), cases=(3000, 300000), time_s=(40, 800), **FULL),
+    ],
+    gates=dict(evaluations=(20000, 2000000), distinct=(3000, 20000),
+               counters={"joiners": (100000, 10000000), "flights": (50000, 5000000), "histories_with_panicking_task": (5000, 500000), "histories_current": (2000, 200000), "histories_threadpool": (2000, 200000),
+                         "hook_points_crossed": (300000, 30000000)}),
+)
+
 LEVEL_TEXT = {
     "C01": "Held on the explored histories: after every successful session each file was downloaded by a fresh downloader, whole and in ranges, and compared byte for byte with what was fed. Sampling over contents, partitions, limits and schedules; hostile generators (limits +-1, interleaved dedup, cross-session and cross-file references, global dedup).",
     "C02": "Held on the explored sessions: every stored xorb decoded under an independent parser with name == recomputed hash; every file record resolved to existing xorbs, in-range chunks and exact byte sums; file hash, per-segment verification hashes and SHA-256 equalled independent recomputation from the original bytes.",
@@ -302,6 +319,7 @@ LEVEL_TEXT = {
     "C11": "Held on the explored histories: each xorb a session stored was described in that session's shards, and no later session sharing the shard cache uploaded a chunk an earlier finalized session had stored (fragmentation prevention accounted for).",
     "C12": "Held on the explored histories, damage cases and schedules: every reported hit equalled the truth slice (data, offsets, range); damaged / planted / junk entries became misses or errors, never wrong data or a panic, with two recorded exceptions (files renamed to another well-formed name or moved to another key, see known findings).",
     "C13": "Held at every observed quiescent point: counters, tracked entries and directory contents agreed, and the capacity bound held after every put, including hundreds of steered schedules of simultaneous identical puts.",
+    "C20": "Held on the explored histories: every recorded history satisfied the one-task-per-flight / every-caller-gets-that-outcome / new-flight-after-return rules, and no waiter was left pending under the bounded-progress probe. Schedules are sampled (5 runtime shapes, perturbation at hook points), not enumerated.",
     "C14": "Held on the explored files and sessions: sizes and metrics conserved (new + deduped = total, withheld <= new, session = sum of files, upload byte counts = what the store calls carried), including runs where fragmentation prevention engaged.",
     "C15": "Held on the explored sessions: every xorb handed to the store respected the configured chunk/byte limits and wire-format widths with strictly increasing boundaries; no shard carried an unresolved xorb reference.",
     "C16": "Fault enumeration: every store call of each enumerated session was failed in turn; in every injected run some session call returned an error, and no shard was ever handed over before/without its xorbs. Exhaustive over single faults per session (bounded), sampled over multi-fault sets and schedules.",
